@@ -58,7 +58,7 @@ GENERAL_SCALARS = [0.1, -0.3, 1.0 / 3, 2.5, -1.7, 0.7]
 
 def EXPECTED_BRANCHES(ctx=None):
     return (fc.history_expected_branches() + fc.wide_expected_branches('C09') +
-            fc.forms_expected_branches() + LEAVES_BRANCHES + REACH_BRANCHES + XTREE_BRANCHES +
+            fc.forms_expected_branches() + LEAVES_BRANCHES + REACH_BRANCHES + XTREE_BRANCHES + OWN_BRANCHES +
             ['lipschitz/nested/{}/{}'.format(k, f) for k in NESTED_KINDS for f, _ in NESTED_FACTORS])
 
 # --------------------------------------------------------------------------
@@ -1585,6 +1585,139 @@ class _RecCtx(object):
         self.msgs.append(key + ': ' + what)
 
 
+
+# --------------------------------------------------------------------------
+# ROUND 6: OWNERSHIP of user vectors. A functional that closes over a vector of the caller
+# (f * w, translated(v), QuadraticForm(vector=), FunctionalQuadraticPerturb(linear_term=),
+# KullbackLeibler(prior=), BregmanDistance(point, subgrad), IndicatorBox(lower, upper)) is built,
+# observed, then the caller overwrites its vector IN PLACE. Afterwards value, gradient and
+# derivative must be CONSISTENT: either all unchanged (the functional owns a copy) or all equal to
+# those of a functional freshly built from the modified vector (it documents no copy and follows
+# the operand) - never a mixture, in which the gradient is no longer the gradient of the value.
+# `f * w`, FunctionalRightVectorMult, QuadraticForm and BregmanDistance make explicit copies:
+# pinned to "independent" (dropping a copy is then a violation, not a silent change of class).
+
+OWN_KINDS = ('mul-vec', 'rvm-direct', 'translated', 'translation-direct', 'quadform-vec', 'quadform-op-vec',
+             'qp-linear-term', 'kl-prior', 'klcc-prior', 'breg', 'box')
+# classes that store COPIES of the vectors they are given (explicit .copy() in the code)
+OWN_PINNED_INDEPENDENT = ('mul-vec', 'rvm-direct', 'quadform-vec', 'quadform-op-vec', 'breg')
+OWN_BRANCHES = (['ownership/' + k for k in OWN_KINDS] +
+                ['ownership/independent', 'ownership/follows-operand'])
+
+
+def own_build(kind, S, ops):
+    import odl
+    import odl.solvers as sol
+    from odl.solvers.functional import functional as F
+    sp = S.space
+    f0 = sol.L2NormSquared(sp)
+    if kind == 'mul-vec':
+        return f0 * ops[0]
+    if kind == 'rvm-direct':
+        return F.FunctionalRightVectorMult(sol.L1Norm(sp), ops[0])
+    if kind == 'translated':
+        return sol.L1Norm(sp).translated(ops[0])
+    if kind == 'translation-direct':
+        return F.FunctionalTranslation(f0, ops[0])
+    if kind == 'quadform-vec':
+        return sol.QuadraticForm(vector=ops[0], constant=1.0)
+    if kind == 'quadform-op-vec':
+        return sol.QuadraticForm(operator=odl.ScalingOperator(sp, 2.0), vector=ops[0])
+    if kind == 'qp-linear-term':
+        return F.FunctionalQuadraticPerturb(f0, 0.5, ops[0], 1.0)
+    if kind == 'kl-prior':
+        return sol.KullbackLeibler(sp, prior=ops[0])
+    if kind == 'klcc-prior':
+        return sol.KullbackLeibler(sp, prior=ops[0]).convex_conj
+    if kind == 'breg':
+        return F.BregmanDistance(f0, ops[0], ops[1])
+    if kind == 'box':
+        return sol.IndicatorBox(sp, ops[1], ops[0])     # lower = ops[1] (negative), upper = ops[0]
+    raise KeyError(kind)
+
+
+def own_numbers(f, S, pts, with_grad):
+    out = []
+    for xs, ds in pts:
+        x, d = S.elem(xs), S.elem(ds)
+        st, v = safe_call(lambda: float(f(x)))
+        out.append(('value', v if st == 'ok' else st))
+        if with_grad:
+            st, g = safe_call(lambda: S.flat(f.gradient(x)))
+            out.append(('gradient', g if st == 'ok' else st))
+            st, dv = safe_call(lambda: float(f.derivative(x)(d)))
+            out.append(('derivative', dv if st == 'ok' else st))
+    return out
+
+
+def own_case(ctx, S, P):
+    kind = P['kind']
+    desc = {'own': kind, 'space': S.name, 'P': P}
+    key = 'ownership {} space={}({})'.format(kind, S.name, S.kind)
+    ops = [S.elem(v) for v in P['ops']]
+    st, f = safe_call(own_build, kind, S, ops)
+    if st != 'ok':
+        ctx.violation(key, 'constructing raised ' + st, desc)
+        return
+    with_grad = kind != 'box'
+    before = own_numbers(f, S, P['pts'], with_grad)
+    for o in ops:                      # the caller re-uses its arrays
+        if P['how'] == 'scale':
+            o *= 0.5
+        else:
+            o += 0.25
+    after = own_numbers(f, S, P['pts'], with_grad)
+    st, fresh_f = safe_call(own_build, kind, S, ops)
+    fresh = own_numbers(fresh_f, S, P['pts'], with_grad) if st == 'ok' else None
+    ctx.hit('ownership/' + kind)
+    ctx.case(('own', kind, S.kind, P['how']))
+    same = lambda a, b: repr(a) == repr(b)          # noqa  (bitwise, nan-safe)
+    if same(after, before):
+        ctx.hit('ownership/independent')
+        return
+    if kind in OWN_PINNED_INDEPENDENT:
+        bad = [n for (n, a), (_, b) in zip(after, before) if not same(a, b)]
+        ctx.violation(key, 'the class stores a copy of the vector it is given (explicit .copy() in '
+                      'its constructor / Functional.__mul__) but {} changed after the caller modified its vector in '
+                      'place'.format('/'.join(sorted(set(bad)))), desc)
+        return
+    if fresh is not None and same(after, fresh):
+        ctx.hit('ownership/follows-operand')
+        return
+    kept = sorted(set(n for (n, a), (_, b) in zip(after, before) if same(a, b)))
+    moved = sorted(set(n for (n, a), (_, b) in zip(after, before) if not same(a, b)))
+    ctx.violation(key + ' [mixed: {} kept, {} follow the modified operand]'.format(
+        '/'.join(kept), '/'.join(moved)),
+        'after the caller modified its vector in place the functional is neither unchanged nor equal '
+        'to a functional built from the modified vector: {} kept the old operand, {} follow the new one '
+        '(e.g. before {!r}, after {!r}, fresh {!r})'.format(
+            '/'.join(kept), '/'.join(moved), before[:3], after[:3], fresh[:3] if fresh else None), desc)
+
+
+def own_stream(ctx, quick):
+    rng = ctx.rng
+    for si, S in enumerate(fc.all_spaces()):
+        n = S.size
+        for ki, kind in enumerate(OWN_KINDS):
+            if S.is_pspace and kind in ('kl-prior', 'klcc-prior'):
+                continue
+            hows = ['scale', 'shift'] if not quick else [('scale', 'shift')[(si + ki) % 2]]
+            for how in hows:
+                kl = kind in ('kl-prior', 'klcc-prior')
+                pts = [[fc.rvec(rng, n, 1, 8, 4) if kind == 'kl-prior' else
+                        (fc.rvec(rng, n, -12, 2, 4) if kind == 'klcc-prior' else fc.rvec(rng, n, -6, 6, 4)),
+                        fc.rvec(rng, n, -4, 4, 2)] for _ in range(2)]
+                own_case(ctx, S, {'kind': kind, 'how': how, 'pts': pts,
+                                  'ops': [[rng.choice([1.0, 2.0, 4.0, 0.5]) for _ in range(n)],
+                                          [rng.choice([-1.0, -2.0, -0.5]) for _ in range(n)]]})
+
+
+def own_replay(ctx, case):
+    c = _RecCtx(ctx.rng)
+    own_case(c, fc.get_space(case['space']), case['P'])
+    return '; '.join(c.msgs) or None
+
+
 # --------------------------------------------------------------------------
 
 def coverage_by_introspection(ctx):
@@ -1676,6 +1809,7 @@ def run(ctx, deep=False):
     fc.forms_stream(ctx, 'C09')
     leaves_stream(ctx, lines, pend, quick)
     reach_stream(ctx, lines, pend, quick)
+    own_stream(ctx, quick)
     outs = core.run_driver('C09', lines)
     compare(ctx, pend, outs)
     ctx.extra['model_lines'] = len(lines)
@@ -1689,6 +1823,7 @@ def search(ctx, broken):
     lines, pend = [], []
     leaves_stream(ctx, [], [], False)       # round-4 leaves: oracles only, thorough amount
     reach_stream(ctx, [], [], False)
+    own_stream(ctx, False)
     if ctx.violations:
         return
     for S in spaces:
@@ -1714,6 +1849,8 @@ def replay(ctx, case):
         return leaves_replay(ctx, case)
     if case.get('reach'):
         return reach_replay(ctx, case)
+    if case.get('own'):
+        return own_replay(ctx, case)
     """Re-run the oracle on one recorded case; returns a description if it still fails."""
     S = fc.get_space(case['space'])
     r = case['recipe']
